@@ -53,6 +53,10 @@ def run_cmd(root, cwd, args, log):
     if os.path.exists(log):
         os.unlink(log)
     env = {'VT_INJECT_LOG': log, 'VT_INJECT_ROOT': root, 'PYTHONPATH': os.pathsep.join([INJECT, core.SRC])}
+    while args and args[0].startswith('ENV:'):          # e.g. ENV:TALLY_CONFIG=/path/ - the config directory named through the environment
+        k, v = args[0][4:].split('=', 1)
+        env[k] = v
+        args = args[1:]
     p = B.tally(cwd, *args, env_extra=env)
     effects = []
     if os.path.exists(log):
@@ -64,9 +68,9 @@ def run_cmd(root, cwd, args, log):
     return p, effects
 
 
-def make_shape(rnd, tmp, k):
+def make_shape(rnd, tmp, k, focus=False):
     layout = rnd.choice(['old', 'old', 'new'])
-    rules = rnd.choice(['rules', 'csv', 'csv', 'csv-empty', 'none'])
+    rules = 'csv' if focus else rnd.choice(['rules', 'csv', 'csv', 'csv-empty', 'none'])
     b = B.gen_budget(rnd, rules={'csv-empty': 'csv'}.get(rules, rules), layout=layout, supplemental=rnd.random() < .2)
     if rules == 'csv-empty':
         b['csv_rules'] = []
@@ -95,7 +99,7 @@ def make_shape(rnd, tmp, k):
                         for nm in ('merchant_categories.csv', 'merchant_categories.csv.bak'):
                             os.utime(os.path.join(cfg, nm), (1700000000, 1700000000))
                         shape['bak_lookalike'] = True
-        if rnd.random() < .25:
+        if rnd.random() < .25 and not focus:
             with open(os.path.join(cfg, 'merchants.rules'), 'w') as f:
                 f.write(rnd.choice(['# my own unreferenced rules\n[Mine]\nmatch: contains("MINE")\ncategory: Mine\n',
                                     '# transforms only\nfield.description = regex_replace(field.description, "^APLPAY\\\\s+", "")\n',
@@ -125,6 +129,13 @@ def make_shape(rnd, tmp, k):
         with open(os.path.join(cfg, 'settings.yaml'), 'a', encoding='utf-8') as f:
             f.write('merchants_file: %s\n' % rnd.choice(['config/merchants.rules', 'config/rules/mine.rules']))
         shape['dangling_rules'] = True
+    if not shape.get('crlf_settings') and rnd.random() < (.8 if focus else .25):
+        # settings.yaml that ends in blank lines (or in no newline at all): an append must keep every existing byte
+        sp = os.path.join(cfg, 'settings.yaml')
+        txt = open(sp, encoding='utf-8').read()
+        with open(sp, 'w', encoding='utf-8', newline='') as f:
+            f.write(txt.rstrip('\n') + rnd.choice(['\n\n\n', '\n\n\n\n', '', '\n\n', '\n   \n\n']))
+        shape['settings_ending'] = True
     if rnd.random() < .3:
         with open(os.path.join(base, 'notes.txt'), 'w') as f:
             f.write('user notes\n')
@@ -138,6 +149,9 @@ def commands(rnd, b, root, cfg, base, shape):
         ('up', ['up', cfg]), ('up', ['up', cfg, '-q']), ('up', ['up', cfg, '--format', 'json']), ('up', ['up', cfg, '--format', 'summary']),
         ('up', ['up', cfg, '--format', 'markdown', '-v']), ('up', ['up', cfg, '--no-embedded-html', '-q']), ('up', ['up']),
         ('up', ['up', cfg, '--output', os.path.join(base, 'output', 'custom.html'), '-q']),
+        ('up', ['ENV:TALLY_CONFIG=' + cfg + os.sep, 'up', '-q']), ('up', ['ENV:TALLY_CONFIG=' + cfg, 'up', '--no-embedded-html', '-q']),
+        ('up', ['ENV:TALLY_CONFIG=' + os.path.join(cfg, '..', 'config') + os.sep, 'up', '--format', 'summary']),
+        ('explain', ['ENV:TALLY_CONFIG=' + cfg + os.sep, 'explain']), ('discover', ['ENV:TALLY_CONFIG=' + cfg + os.sep, 'discover']),
         ('explain', ['explain', cfg]), ('explain', ['explain', 'Netflix', cfg, '--format', 'json']), ('explain', ['explain', '--category', 'Food', cfg]),
         ('discover', ['discover', cfg]), ('discover', ['discover', cfg, '--format', 'json', '-n', '0']), ('discover', ['discover', cfg, '--format', 'csv']),
         ('diag', ['diag', cfg]), ('diag', ['diag', cfg, '--format', 'json']), ('inspect', ['inspect', data_file]), ('inspect', ['inspect', data_file, '-n', '2']),
@@ -146,6 +160,9 @@ def commands(rnd, b, root, cfg, base, shape):
     ]
     n = rnd.randint(3, 8)
     seq = [rnd.choice(pool) for _ in range(n)]
+    if shape.get('focus'):
+        # migration-focused sequence: the first command is a real migration of the legacy CSV (init or up --migrate)
+        seq = [rnd.choice([c for c in pool if c[0] in ('init', 'migrate')])] + seq[:2]
     return cwd, seq
 
 
@@ -249,8 +266,11 @@ def settings_append_only(rec, root, rel, old_bytes, case, who):
         rec.violation(who + '-rewrites-settings', f'{rel}: the previous content is not a prefix of the new content', case)
 
 
-def judge(rec, rnd, tmp, k, log):
-    b, root, cfg, base, shape = make_shape(rnd, tmp, k)
+def judge(rec, rnd, tmp, k, log, focus=False):
+    b, root, cfg, base, shape = make_shape(rnd, tmp, k, focus)
+    shape['focus'] = focus
+    if focus:
+        rec.count('migration_focused_sequences')
     cwd, seq = commands(rnd, b, root, cfg, base, shape)
     cfg_rel = os.path.relpath(cfg, root)
     prev = None
@@ -305,6 +325,8 @@ def run(rec, shard, nshards, t):
     try:
         for k in range(max(1, (40 if t == 'quick' else 1500) // nshards)):
             judge(rec, rnd, tmp, k, log)
+        for k in range(max(1, (24 if t == 'quick' else 600) // nshards)):
+            judge(rec, rnd, tmp, 100000 + k, log, focus=True)
         if shard == 0:
             rec.sample({'example_sequence': ['up', 'discover --format json', 'init', 'up --migrate -q'], 'monitors': ['sha256 tree snapshot', 'audit-hook effect log']})
     finally:
@@ -320,7 +342,7 @@ def replay(rec, case):
     log = os.path.join(tempfile.gettempdir(), 'vt-c20-%d.log' % os.getpid())
     try:
         for k in range(30):
-            judge(rec, rnd, tmp, k, log)
+            judge(rec, rnd, tmp, k, log, focus=k % 3 == 0)
     finally:
         shutil.rmtree(tmp, ignore_errors=True)
         if os.path.exists(log):
